@@ -15,7 +15,8 @@
 (*   element m_i : substitutionGroup = parent(m_i), type as h or Ext        *)
 (*   element root: sequence(ref h {occ}, [box(ref m1 ?)], [e: Base],     *)
 (*                 [group G], [n: Node], [end, any ?]) + [attributeGroup AG]*)
-(*   group G     = sequence(p: int, q: string?)                             *)
+(*   group G     = sequence(p: int, q: string?), referenced with an          *)
+(*                 occurrence range of its own (1, 0..1, 1..unbounded)       *)
 (*   (root may be mixed="true": character data between its children)       *)
 (*   type Node   = sequence(v: int, n: Node?)                               *)
 (* Validity is CONSTRUCTIVE (DocOf builds a valid instance from an index);  *)
@@ -99,7 +100,12 @@ DocOf(s, k) ==
            ELSE LET asExt == s.ext = "elemAbstractBase" \/ k % 2 = 0
                     c == Content(s, IF asExt THEN "Ext" ELSE "Base", k)
                 IN << Elem(T, "e", IF asExt THEN "Ext" ELSE NONE, c.attrs, c.text, c.kids) >>
-      g == IF s.grp THEN << Leaf(T, "p", "4") >> \o (IF k % 3 = 1 THEN << Leaf(T, "q", "cue") >> ELSE <<>>) ELSE <<>>
+      \* the group reference carries its own occurrence range: one / optional / repeating
+      G(j) == << Leaf(T, "p", "4") >> \o (IF j % 3 = 1 THEN << Leaf(T, "q", "cue") >> ELSE <<>>)
+      g == CASE s.grp = "none" -> <<>>
+             [] s.grp = "one"  -> G(k)
+             [] s.grp = "opt"  -> IF k % 2 = 0 THEN <<>> ELSE G(k)
+             [] s.grp = "many" -> G(k) \o (IF k % 3 = 2 THEN G(k + 2) ELSE <<>>)
       r == IF s.rec THEN << NodeOf(k % 3) >> ELSE <<>>
       w == IF s.wild = "none" THEN <<>>
            ELSE << Leaf(T, "end", "z") >> \o
